@@ -16,8 +16,6 @@ import (
 	"github.com/prometheus/common/model"
 	"github.com/prometheus/prometheus/config"
 
-	"tkestack.io/kvass/pkg/utils/types"
-
 	"github.com/prometheus/prometheus/discovery/targetgroup"
 	"github.com/prometheus/prometheus/scrape"
 )
@@ -181,16 +179,21 @@ func targetHash(lbls labels.Labels, url string) uint64 {
 // but populateLabels will add all config param into labels
 // must delete them from label set
 func labelsWithoutConfigParam(lbls labels.Labels, param url.Values) labels.Labels {
-	key := make([]string, 0, len(param))
-	for k := range param {
-		key = append(key, model.ParamLabelPrefix+k)
-	}
-
 	newlbls := labels.Labels{}
 	for _, l := range lbls {
-		if !types.FindString(l.Name, key...) {
-			newlbls = append(newlbls, l)
+		if strings.HasPrefix(l.Name, model.ParamLabelPrefix) {
+			if v := param[l.Name[len(model.ParamLabelPrefix):]]; len(v) > 0 {
+				if l.Value == v[0] {
+					// the value from the job config, prometheus of the shard will set it again
+					continue
+				}
+				// relabel_configs had changed this param, prometheus of the shard would reset it to the
+				// value from the job config before relabeling: ship it with the prefix, the labelmap rule
+				// the sidecar adds to the job gives it back its name after that
+				l.Name = target.PrefixForInvalidLabelName + l.Name
+			}
 		}
+		newlbls = append(newlbls, l)
 	}
 	return newlbls
 }
